@@ -112,7 +112,13 @@ def run(ctx):
                     ok = tystr(vty) == "&str" and all(src_is_upvar(s) for s in tr.sources(t["args"][2]))
                     ctx.check(ok, "R9.1", where, key + "|param", f"{b.id}: safe param `param` must be the helper's log name", instance=f"{b.id}: with_safe_param(\"param\", log_as)")
                 else:
-                    ctx.violation("R9.1", where, key + f"|{k}", f"{b.id}: with_safe_param with key {k!r} is not in the specification's table (actual, param)")
+                    # any other safe parameter must carry a compile-time constant or a count
+                    vc = dt.resolve_const(b, t["args"][2]) if not as_value else None
+                    tr = Tracer(b, through_calls=True)
+                    countish = tystr(vty) in ("usize", "i32", "u32", "u64", "i64") and all(
+                        base_kind(b, s) for s in tr.sources(t["args"][2]))
+                    ctx.check(vc is not None or countish, "R9.1", where, key + f"|{k}", f"{b.id}: with_safe_param({k!r}, <{tystr(vty)}>) attaches a value that is neither a constant nor a count to a safe-to-log parameter (request data would be logged as safe)",
+                              instance=f"{b.id}: with_safe_param({k!r}, constant/count)")
                 continue
             # *_safe constructors: cause type = first type argument
             cause = f["substs"][0] if f.get("substs") else None
@@ -227,6 +233,18 @@ def run(ctx):
         ctx.check(not reads and not derived, "R9.4", b.loc(), "BearerToken|debug-redacted", f"<BearerToken as Debug>::fmt reads the token field (lines {reads}) or is derived", instance="BearerToken Debug never projects the token")
     disp = [i for i in co.impls if i.get("trait") == "core::fmt::Display" and ty_adt(i["self_ty"]) == BT]
     ctx.check(not disp, "R9.4", "conjure_object", "BearerToken|no-display", "BearerToken implements Display (the token would leak through {} formatting)", instance="BearerToken: no Display impl")
+
+
+def base_kind(b, s):
+    while s[0] == "field":
+        s = s[1]
+    if s[0] == "const":
+        return True
+    if s[0] == "call" and b.blocks[s[1]]["t"]["call"]["name"] in ("count", "len"):
+        return True
+    if s[0] == "other":
+        return "bin" in b.blocks[s[1]]["s"][s[2]]["r"]
+    return False
 
 
 def src_is_upvar(s):
